@@ -229,6 +229,11 @@ TraceRoundTrip ==
      /\ Encodable(p)
      /\ Rule(l, "NoPanic", "panic" \notin {Ev.plain[1], Ev.comp[1], Ev.pp[1], Ev.pc[1]}, <<"roundtrip", Ev.plain[1], Ev.comp[1], Ev.pp[1], Ev.pc[1]>>)
      /\ Rule(l, "BuildOk", plainOk /\ compOk, <<Ev.plain[1], Ev.comp[1]>>)
+     \* C08 on whatever API history led to this packet: id and flags word at the RFC bit positions
+     /\ Rule(l, "HdrFields",
+             \A o \in {Ev.plain[2], Ev.comp[2]} \cap (IF plainOk /\ compOk THEN {Ev.plain[2], Ev.comp[2]} ELSE {}) :
+                SubSeq(o, 1, 4) = BE16(p.id) \o BE16(FlagWord({n \in FlagNames : Bit(p.fs, FlagBit(n))}, p.opcode, p.rcode % 16)),
+             <<"header-written", IF plainOk THEN SubSeq(Ev.plain[2], 1, 4) ELSE <<>>, "id", p.id, "fs", p.fs, "opcode", p.opcode, "rcode", p.rcode>>)
      \* the plain output is an uncompressed, exactly framed message (every record re-encodes byte for byte with the
      \* reference encoder, RDLENGTHs exact, nothing after the last entry) that decodes to the packet.  The order
      \* of the OPT pseudo-record among the additional records is left free; everything else is byte-exact.
@@ -412,7 +417,7 @@ TraceNetRun ==
             "async responder", Ev.answered_async, "async discovery", Ev.answered_async_discovery>>)
   /\ Rule(l, "LockClean", Ev.usable # "no" /\ Ev.async_usable # "no", <<"store unusable after hostile traffic">>)
   \* the one-shot resolver resolving a name while the hostile datagrams arrive: any outcome but a panic
-  /\ Rule(l, "LoopAlive", \A i \in 1 .. Len(Ev.resolver) : SubSeq(Ev.resolver[i], 1, 5) # "panic",
+  /\ Rule(l, "LoopAlive", \A i \in 1 .. Len(Ev.resolver) : Ev.resolver[i][1] # "panic",
           <<"one-shot resolver panicked", Ev.resolver>>)
 
 (* ApiTrace (C02, C08): an API history of the builder machine (Builder.tla) was replayed    *)
@@ -424,6 +429,19 @@ TraceApi ==
      /\ \A i \in 1 .. Len(Ev.states) :
           Rule(l, "ApiStep", Ev.states[i] = model[i],
                <<"call", i, Ev.hist[i].op, "field", IF DOMAIN Ev.states[i] = DOMAIN model[i] THEN PktDiff(Ev.states[i], model[i]) ELSE "panic">>)
+     \* C08 after every call of the history (a packet that came from the parser and was then edited included):
+     \* what the real packet serialises to starts with the id and the flag word of the model's state
+     /\ \A i \in 1 .. Len(Ev.wire) :
+          LET m == model[i] IN
+          Rule(l, "HdrFields",
+               Len(Ev.wire[i]) = 4 => Ev.wire[i] = BE16(m.id) \o BE16(FlagWord({n \in FlagNames : Bit(m.fs, FlagBit(n))}, m.opcode, m.rcode % 16)),
+               <<"header-written-after-call", i, Ev.hist[i].op, Ev.wire[i], "id", m.id, "fs", m.fs, "opcode", m.opcode, "rcode", m.rcode>>)
+     \* C02 on the packet the history built (wire-representable: every state of the builder machine is):
+     \* parse(build(p)) = p, p being the real packet's own projection after the last call
+     /\ Rule(l, "RoundTrip",
+             Len(Ev.states) = Len(Ev.hist) => (Ev.last[1] = "ok" /\ Ev.back[1] = "ok" /\ Ev.back[2] = Ev.states[Len(Ev.states)]),
+             <<"history-built packet", Ev.last[1], Ev.back[1],
+               IF Ev.back[1] = "ok" /\ Len(Ev.states) = Len(Ev.hist) THEN PktDiff(Ev.back[2], Ev.states[Len(Ev.states)]) ELSE "-">>)
 
 (* Reparse (C11): bytes e.b accepted by the parser (e.p1), re-serialised plain  *)
 (* (e.b2) and compressed (e.b3), each parsed again (e.p2, e.p3)                 *)
